@@ -22,7 +22,7 @@ from pactisim import env, ops, refmodel, seams as sm
 from pactisim.env import HarnessError
 
 G_TIMEOUT = 60.0
-PARSE_OPS = ("parse", "from_strings", "optimize", "get_variable_bounds", "read_file", "compound_from_strings", "compound_merge", "compound_le")
+PARSE_OPS = ("parse", "from_strings", "optimize", "get_variable_bounds", "read_file", "compound_from_strings", "compound_merge", "compound_le", "compound_misc", "compound_file")
 PROBE_STRINGS = ["2x + 3y <= 4", "1 <= 2(x + y) - z <= 7", "0.5 a + (1/2)b = -1", "3|x| + |x| - y <= 0"]
 
 ALLOWED_EXC = {
